@@ -18,7 +18,9 @@ BAD_LINES = ['', ' ', '\t \n', 'foo', 'foo a=1', 'note_on note', 'note_on note='
              'note_on data=(1)', 'clock note=1', 'NOTE_ON', 'note_on\tnote=5', 'note_on  note=5   velocity=7', 'pitchwheel pitch=-8192',
              'pitchwheel pitch=-8193', 'note_on channel=16', 'note_on note=1_0', 'note_on note=+5', 'note_on note=1__0', 'note_on note=_1',
              'songpos pos=16383', 'songpos pos=16384', 'note_on time=1e3', 'note_on time=-2.5', 'note_on time=nan', 'note_on time=1_0',
-             'sysex data=(1, 2)', 'note_on note= 5', 'note_on=5', 'quarter_frame frame_type=8', 'note_on note=٣']
+             'sysex data=(1, 2)', 'note_on note= 5', 'note_on=5', 'quarter_frame frame_type=8', 'note_on note=٣',
+             'sysex data=', 'sysex data= time=3', 'sysex data=(', 'sysex data=)', 'sysex data==', 'note_on note= velocity=3', 'sysex time=1 data=',
+             'note_on channel=', 'songpos pos=', 'pitchwheel pitch=', 'note_on time= note=1']
 MODEL_TIMES = [0, -3, 7, 0.5, 2.25, -1.5, 3.0, 10 ** 30]
 ORACLE_TIMES = MODEL_TIMES + [1e-7, 1e300, 123456.789]
 
@@ -170,6 +172,19 @@ def impl_repr(obj_desc):
             x = mido.MidiTrack(smf.build_event(e) for e in obj_desc[1])
             y = eval(repr(x))
             ok = (list(y) == list(x) and type(y) is type(x))
+        elif kind == 'loadedfile':
+            # a file as it comes out of load(): the header fields are whatever 16-bit values the bytes hold (an SMPTE time
+            # division is a negative ticks_per_beat, a division of 0 is storable too)
+            import io
+            x = mido.MidiFile(file=io.BytesIO(bytes(obj_desc[1])))
+            y = eval(repr(x))
+            ok = (y.type == x.type and y.ticks_per_beat == x.ticks_per_beat and
+                  [list(t) for t in y.tracks] == [list(t) for t in x.tracks])
+            if ok:
+                b1, b2 = io.BytesIO(), io.BytesIO()
+                x.save(file=b1)
+                y.save(file=b2)
+                ok = b1.getvalue() == b2.getvalue()
         else:
             x = smf.build_file(obj_desc[1])
             y = eval(repr(x))
@@ -257,6 +272,10 @@ def gen(ck):
         d = smf.random_file(rng)
         d['tracks'] = [tr[:6] for tr in d['tracks'][:3]]
         reprs.append(('file', d))
+    for division in (0xE728, 0xE250, 0, 1, 0x7FFF, 0x8000, 0xFFFF, 480):
+        for ty_ in (0, 1):
+            reprs.append(('loadedfile', [77, 84, 104, 100, 0, 0, 0, 6, 0, ty_, 0, 1, division >> 8, division & 255,
+                                         77, 84, 114, 107, 0, 0, 0, 8, 0, 0x90, 60, 64, 5, 0xff, 0x2f, 0]))
     reprs.append(('file', {'type': 1, 'tpb': 480, 'tracks': []}))
     reprs.append(('file', {'type': 1, 'tpb': 480, 'tracks': [[], [(0, 'msg', 'note_on', {})]]}))
     reprs.append(('track', [(0, 'msg', 'note_on', {})]))
